@@ -73,6 +73,8 @@ ReqInit(c) ==
     reading  |-> FALSE,        \* listener is inside ReadFrom
     nTO      |-> 0,            \* consecutive receive timeouts
     resumeAt |-> -1,           \* next ReadFrom must be issued exactly then (back-off)
+    finalExcused |-> FALSE,    \* a forwarding read failed after the stop request
+    fwdFailed|-> FALSE,        \* a forwarding read of this session failed (its transmit-error count is then not predicted)
     tgate    |-> FALSE,        \* the driver holds the terminator's mutex (a signal is being delivered under Serve)
     invSrcs  |-> {},           \* sources of messages that failed validation (C09: they are owed nothing)
     nRA      |-> 0,            \* valid RAs received
@@ -150,8 +152,14 @@ OnIn(m, e) ==
 OnFwd(m, e) ==
   IF m.inQuery THEN [m EXCEPT !.qreads = Append(@, e.val)]
   ELSE LET m1 == IF m.retAt # -1 THEN Flag(m, "c08-ra-generation-after-return") ELSE m IN
+       IF ~e.ok
+       THEN \* no RA can be generated: the transmission (or comparison) this read belongs to fails, which is a fault of the
+            \* session like a failed write (and is counted as a transmit error when it was a scheduled transmission)
+            [m1 EXCEPT !.fcls = @ \cup {IF e.cls = "sys" THEN "rec" ELSE "fatal"}, !.fwdFailed = TRUE,
+                       !.finalExcused = @ \/ m1.cancelAt # -1,      \* the final RA could not be built (outside C08's quantifier)
+                       !.faultAt = IF @ = -1 /\ m1.cancelAt = -1 /\ Up(m1) THEN e.t ELSE @]
+       ELSE
        [m1 EXCEPT !.pend = Append(@, e.val),
-                  !.fcls = IF e.ok THEN @ ELSE @ \cup {"rec", "fatal"},     \* (the class of a failed read is not logged)
                   !.nFalse = IF ~e.val /\ m.cfglife > 0 /\ m.cancelAt = -1 THEN @ + 1 ELSE @]
 
 \* C04 on the metrics and debug-API paths: the query reads forwarding once for this interface and reports
@@ -274,7 +282,7 @@ OnRelease(m, e) == [m EXCEPT !.nHeld = IF @ > 0 THEN @ - 1 ELSE 0]
 \* A quiescent point at time T: every goroutine is blocked.
 OnQuiet(m, e) ==
   LET m1 == Deadlines(m, e.t)
-      m2a == IF m1.nOpen = 0 /\ m1.cancelAt = -1 /\ m1.obs # m1.exp THEN Flag(m1, "c07-counters-differ-from-transmissions-and-receptions") ELSE m1
+      m2a == IF m1.nOpen = 0 /\ m1.cancelAt = -1 /\ (IF m1.fwdFailed THEN [m1.obs EXCEPT !.txerr = 0] # [m1.exp EXCEPT !.txerr = 0] ELSE m1.obs # m1.exp) THEN Flag(m1, "c07-counters-differ-from-transmissions-and-receptions") ELSE m1
       m2 == IF m1.nOpen = 0 /\ m1.cancelAt = -1 /\ m1.obs.inv # m1.exp.inv THEN Flag(m2a, "c09-invalid-counter-differs-from-invalid-messages") ELSE m2a
       m2b == IF Live(m2) /\ ~m2.unicast /\ ~m2.monmode /\ m2.lastMc # -1 /\ e.t - m2.lastMc > RoundSec(m2.maxiv) + MinDelay
              THEN Flag(m2, "c05-unsolicited-multicast-ra-overdue") ELSE m2
@@ -292,7 +300,7 @@ OnAdvance(m, e) ==
   ELSE m
 
 OnRet(m, e) ==
-  LET needFinal == m.cancelAt # -1 /\ m.term /\ ~m.unicast /\ ~m.monmode /\ m.upAtCancel /\ e.res = "nil"
+  LET needFinal == m.cancelAt # -1 /\ m.term /\ ~m.unicast /\ ~m.monmode /\ m.upAtCancel /\ e.res = "nil" /\ ~m.finalExcused
       m1 == IF m.retAt # -1 THEN Flag(m, "returned-twice")
             ELSE IF Up(m) THEN Flag(m, "c11-return-without-cleanup")
             ELSE IF m.nOpen > 0 THEN Flag(m, "c08-return-with-write-in-flight")
